@@ -59,4 +59,15 @@ hide within one window: the next run sends the despawn. -/
 example : (runCell true {} [.show_, .tick, .hide, .show_, .hide, .tick]).2
     = [.nothing, .whole, .nothing, .nothing, .nothing, .despawn] := by decide
 
+/-- Known finding F14, machine-checked on the visibility model (replay: `findings/F14.trace`):
+blacklist; the entity is hidden and a tick passes; then its replication marker is removed, which
+`ClientVisibility` is told as a despawn: the cell is wiped and `is_visible` answers `true` although
+the most recent setting of the (live) entity is "hidden". -/
+theorem C08_known_finding_F14_witness :
+    let c1 := (step false {} .hide).1
+    let c2 := (step false c1 .tick).1
+    let c3 := (step false c2 .despawnTick).1
+    isVisible false c2 = false ∧ isVisible false c3 = true := by
+  decide
+
 end Replicon.C08
